@@ -387,6 +387,18 @@ fn run_set(d: &dyn Driver, ctx: &Ctx, idx: u64, seed: u64) -> CaseOut {
         out.o.count(&format!("files_written[{side}/{name}]"), 1);
         out.o.max("max_file_bytes", bytes.len() as u64);
         files[f] = Some(bytes.clone());
+        if bytes.starts_with(&[0x1f, 0x8b]) {
+            if let Ok(w) = obgzf::walk(&bytes) {
+                // data-carrying members; values can only straddle a block boundary when there are several
+                let m = w.members.iter().filter(|m| !m.data.is_empty()).count() as u64;
+                out.o.max(&format!("max_bgzf_data_blocks[{side}/{name}]"), m);
+                if m >= 5 {
+                    out.o.count(&format!("files_with_ge_5_bgzf_data_blocks[{side}/{name}]"), 1);
+                }
+            }
+        } else if bytes.len() >= 300 * 1024 {
+            out.o.count(&format!("uncompressed_files_ge_300KiB[{side}/{name}]"), 1);
+        }
         let mut shape_ok = true;
         if let Err((kind, msg)) = d.structural(f, &bytes) {
             shape_ok = false;
@@ -642,6 +654,12 @@ fn gen_cases(ctx: &Ctx) -> Vec<Case> {
     for (i, c) in var::DET_CLASSES.iter().enumerate() {
         cases.push(Case { side: "variant", class: c.to_string(), seed: ctx.seed.wrapping_mul(1000) + i as u64 });
     }
+    // two more multi-block sets per side (three with the one above): the only sets in which values straddle
+    // BGZF block boundaries, which is where a short write of a *.gz / BGZF target loses bytes
+    for k in 1..=2u64 {
+        cases.push(Case { side: "alignment", class: "multi-block".into(), seed: ctx.seed.wrapping_mul(1000) + 500 + k });
+        cases.push(Case { side: "variant", class: "multi-block".into(), seed: ctx.seed.wrapping_mul(1000) + 500 + k });
+    }
     // seeded random part
     let n = ctx.budget("sets", 12, 480);
     let mut rng = Rng::new(ctx.seed, 0xC20, 0);
@@ -799,6 +817,10 @@ fn main() {
         }
         rep.floor("record_variant_observations", c("record_variant_observations"), 50);
         rep.floor("path_runs", c("path_runs"), 50);
+        // the multi-block sets did produce multi-block text targets (the field writers of SAM and VCF write
+        // straight into the BGZF writer)
+        rep.floor("files_with_ge_5_bgzf_data_blocks[alignment/sam.gz]", c("files_with_ge_5_bgzf_data_blocks[alignment/sam.gz]"), 3);
+        rep.floor("files_with_ge_5_bgzf_data_blocks[variant/vcf.gz]", c("files_with_ge_5_bgzf_data_blocks[variant/vcf.gz]"), 3);
     }
     rep.finish(&ctx);
 }
